@@ -431,7 +431,11 @@ PROPS = {
                 "overlaps, duplicates, gaps, empty, forks with/without known prefix, fabricated heads; on every run the batches of the "
                 "repaired finding F7c on a mid-trunk follower and on a genesis-only follower (empty batch, first unknown momentum at "
                 "frontier+2 / +6 / 2^62, with a known prefix in front, claimed height 0 / 1; counters directed-*), followed by the honest "
-                "continuation. n counts test batches (the clean "
+                "continuation. A body corruption (blocksig, blockamount) of an account block the follower already pools is not a corruption of "
+                "what the node verifies (InsertChain skips a block whose patch it holds and builds the momentum from its own verified copy): "
+                "such an element counts as valid when it is certain to be skipped (counter corrupt-ignored-pooled-block; the monitor still "
+                "checks that the node ends up with the producer's bytes) and is replaced by a momentum-level corruption otherwise. "
+                "n counts test batches (the clean "
                 "batches that position a follower are extra lines, also replayed); distinct = distinct lines",
         "partial": "momentum + account-block verification is an oracle (`valid`) of the model — C03/C05 own it; the stream supplies it as "
                    "'bytes are the producer's own' and the monitor checks the node only ever holds such bytes. Downloader/fetcher "
